@@ -493,6 +493,43 @@ func ruleDepositPop(c *Ctx) {
 				}
 				cur = parents[cur]
 			}
+			// result kept in a local (`ok := skip || Verify(...)`): the `!ok` branch must skip the deposit
+			var las *ast.AssignStmt
+			for q := ast.Node(call); q != nil; q = parents[q] {
+				if a, ok := q.(*ast.AssignStmt); ok {
+					las = a
+					break
+				}
+				if _, ok := q.(ast.Stmt); ok {
+					break
+				}
+			}
+			if las != nil && len(las.Lhs) == 1 {
+				if lid, ok := las.Lhs[0].(*ast.Ident); ok {
+					lobj := info.ObjectOf(lid)
+					done := false
+					ast.Inspect(fd.Body, func(k ast.Node) bool {
+						is, ok := k.(*ast.IfStmt)
+						if !ok || done {
+							return true
+						}
+						if ue, ok := ast.Unparen(is.Cond).(*ast.UnaryExpr); ok && ue.Op == token.NOT {
+							if tid, ok := ast.Unparen(ue.X).(*ast.Ident); ok && info.ObjectOf(tid) == lobj {
+								done = true
+								if isReturnNil(is.Body) {
+									c.ok(key, call.Pos(), "failed proof-of-possession (kept in %s) skips the deposit", lid.Name)
+								} else {
+									c.bad(key, call.Pos(), "a failed proof-of-possession does not `return nil`: the spec skips such a deposit, the block stays valid")
+								}
+							}
+						}
+						return true
+					})
+					if done {
+						return true
+					}
+				}
+			}
 			c.unm(key, call.Pos(), "Verify call not inside an if condition")
 			return true
 		}
